@@ -21,6 +21,9 @@ PathFrom(nodes, id) ==
   ELSE {id} \cup PathFrom(nodes, ChildId(nodes, id, nd.focus))
 FocusPath(nodes) == IF nodes = <<>> THEN {} ELSE PathFrom(nodes, Root(nodes))
 
+RECURSIVE AncSelf(_, _)
+AncSelf(nodes, id) == IF id = 0 \/ ~Has(nodes, id) THEN {} ELSE {id} \cup AncSelf(nodes, Node(nodes, id).parent)
+
 SeqSet(q) == {q[j] : j \in 1..Len(q)}
 
 \* every non-empty container has a valid focus child which is the widget it reports; empty ones report none
@@ -47,4 +50,64 @@ SelectableIffChild(nodes, id) ==
   LET nd == Node(nodes, id)
       kids == {k \in 1..Len(nodes) : nodes[k].parent = id}
   IN (nd.sel = 1) <=> (\E k \in kids : nodes[k].sel = 1)
+
+(* ---- which keys a container itself acts on (documented key handling) ------------------------------------------------------ *)
+(* Pile: "unhandled 'up' and 'down' keys may cause a focus change"; Columns: 'left' / 'right'; GridFlow (a Pile of Columns       *)
+(* rows): the four arrows; ListBox: 'up', 'down', 'page up', 'page down' and 'home' / 'end' (first / last item).  Frame,         *)
+(* Overlay and the decorations only pass a key on to their focus child.  Every other key is none of a container's business.      *)
+Navigates(kind, key) ==
+  CASE kind = "Pile"     -> key \in {"up", "down"}
+    [] kind = "Columns"  -> key \in {"left", "right"}
+    [] kind = "GridFlow" -> key \in {"up", "down", "left", "right"}
+    [] kind = "ListBox"  -> key \in {"up", "down", "page up", "page down", "home", "end"}
+    [] OTHER             -> FALSE
+
+(* Documented ListBox behaviour (manual, "Widget.move_cursor_to_coords ... The ListBox widget uses move_cursor_to_coords when       *)
+(* changing focus"): a ListBox focus assignment is completed at the next layout (a rendering, or the layout a keypress / mouse     *)
+(* event performs first), and when the new item is among the visible rows that layout places the cursor within the item: the        *)
+(* containers inside the item then focus the (selectable) child at the cursor.  The ListBox's own focus is NOT touched by this.     *)
+(* pend: ids of the ListBoxes with a focus change pending.                                                                        *)
+Desc(nodes, a) == {id \in NodeIds(nodes) : a \in AncSelf(nodes, id)}
+FocusItem(nodes, lb) == IF Has(nodes, lb) /\ Node(nodes, lb).focus >= 0 THEN ChildId(nodes, lb, Node(nodes, lb).focus) ELSE 0
+CursorPlaced(post, pend, id) ==
+  \E lb \in SeqSet(pend) : /\ lb # id /\ FocusItem(post, lb) # 0 /\ FocusItem(post, lb) \in AncSelf(post, id)
+                           /\ LET c == ChildId(post, id, Node(post, id).focus) IN c = 0 \/ Node(post, c).sel = 1
+\* what a key can reach: the focus path and - below a ListBox on the path whose focus change is still pending - the whole focus item
+Reach(pre, pend) ==
+  FocusPath(pre) \cup UNION {Desc(pre, FocusItem(pre, lb)) : lb \in {x \in SeqSet(pend) : x \in FocusPath(pre) /\ FocusItem(pre, x) # 0}}
+
+\* a key travels down the focus path only: the containers that may act on it are the ones on the path that navigate with it
+NavigatorsOnPath(pre, pend, key) == {id \in Reach(pre, pend) : Navigates(Node(pre, id).kind, key)}
+
+\* ret: "same" (the key came back), "none" (None came back), "other" (something else came back); ate = 1: a leaf consumed the key.
+\* A key no leaf consumed and no container on the focus path navigates with is UNHANDLED: it comes back unchanged.  Whoever
+\* handles a key returns None or the key itself, never something else.
+UnhandledComesBack(pre, pend, key, ate, ret) ==
+  /\ ret \in {"same", "none"}
+  /\ (ate = 0 /\ NavigatorsOnPath(pre, pend, key) = {}) => ret = "same"
+\* ... and it changes no focus: a container's focus moves on a key only when the container, or a container above it on the focus
+\* path (which then places the cursor inside the child it moved to), navigates with that key
+\* (first: the ListBoxes never laid out before, which choose their first visible selectable item at the layout the key performs)
+KeyMovesOnlyNavigators(pre, post, pend, first, key) ==
+  \A id \in Moved(pre, post) : \/ AncSelf(pre, id) \cap NavigatorsOnPath(pre, pend, key) # {}
+                               \/ CursorPlaced(post, pend, id) \/ id \in SeqSet(first)
+
+(* ---- focus assignments and layout ----------------------------------------------------------------------------------------- *)
+(* foc: the focus indices of the containers as a sequence of [id, nch, focus], read at some instant (cheaper than a table).       *)
+FocusOf(foc, id) == IF \E k \in 1..Len(foc) : foc[k].id = id THEN foc[CHOOSE k \in 1..Len(foc) : foc[k].id = id].focus ELSE -2
+FocusesOf(nodes) == LET cs == {k \in 1..Len(nodes) : nodes[k].leaf = 0}
+                        RECURSIVE Build(_)
+                        Build(k) == IF k > Len(nodes) THEN <<>>
+                                    ELSE (IF k \in cs THEN <<[id |-> nodes[k].id, nch |-> nodes[k].nch, focus |-> nodes[k].focus]>> ELSE <<>>) \o Build(k + 1)
+                    IN Build(1)
+\* Laying the tree out (rendering it, or the layout a keypress / mouse event performs first) changes no focus: what focus_position
+\* and get_focus_path() answered before is what they answer afterwards, so a focus that was written stays written - but for the
+\* documented cursor placement inside the new focus item of a ListBox (pend), and for a ListBox laid out for the very first time
+\* (first), which moves its focus to the first visible selectable item.
+LayoutKeepsFocus(foc, post, pend, first) ==
+  \A k \in 1..Len(foc) : (Has(post, foc[k].id) /\ Node(post, foc[k].id).nch = foc[k].nch /\ Node(post, foc[k].id).focus # foc[k].focus)
+                             => CursorPlaced(post, pend, foc[k].id) \/ foc[k].id \in SeqSet(first)
+\* a valid focus assignment puts the focus on the assigned child: at once (foc) and still after the next layout (post)
+AssignmentTakesEffect(foc, post, pend, target, want) ==
+  FocusOf(foc, target) = want /\ (Has(post, target) => (Node(post, target).focus = want \/ CursorPlaced(post, pend, target)))
 =================================================================================
